@@ -162,6 +162,77 @@ func mutateResponse(t *Tape, valid Object, childrenKey string) (body []byte, cod
 	}
 }
 
+// mutateCustomize applies one grammar mutation to a valid customize answer.
+func mutateCustomize(t *Tape, valid Object) (body []byte, code int, class string, rejected bool) {
+	code = 200
+	switch t.Pick(7, "cmutation") {
+	case 0:
+		codes := []int{201, 204, 400, 404, 500, 503}
+		code = codes[t.Pick(len(codes), "code")]
+		return canon(valid), code, fmt.Sprintf("customize-status-%d", code), true
+	case 1:
+		b := canon(valid)
+		n := 1 + t.Pick(len(b)-1, "cut")
+		return b[:n], 200, "customize-truncated", !json.Valid(b[:n])
+	case 2:
+		bodies := [][]byte{{}, []byte("null"), []byte("[]"), []byte("\"x\""), []byte("<html>"), []byte("{\"relatedResources\": [}"), {0xff, 0xfe, 0x00}, []byte("42"), []byte("{}"), []byte("{\"relatedResources\":null}")}
+		b := bodies[t.Pick(len(bodies), "junk")]
+		return b, 200, "customize-junk-body", !json.Valid(b)
+	case 3: // null / scalar / incomplete rules
+		v := deepCopy(valid)
+		l := getList(v, "relatedResources")
+		bad := []interface{}{nil, int64(7), "rule", []interface{}{}, Object{}, Object{"apiVersion": "v1"}, Object{"resource": "configmaps"},
+			Object{"apiVersion": "v1", "resource": "nosuchthings"}, Object{"apiVersion": "a/b/c", "resource": "configmaps"},
+			Object{"apiVersion": "v1", "resource": "configmaps", "labelSelector": nil, "namespace": nil, "names": nil}}
+		e := bad[t.Pick(len(bad), "badrule")]
+		pos := t.Pick(len(l)+1, "at")
+		nl := append(append(append([]interface{}{}, l[:pos]...), e), l[pos:]...)
+		v["relatedResources"] = nl
+		return canon(v), 200, "customize-bad-rule-entry", false
+	case 4: // wrong types inside a rule
+		v := deepCopy(valid)
+		l := getList(v, "relatedResources")
+		if len(l) == 0 {
+			return canon(v), 200, "valid", false
+		}
+		r, _ := l[t.Pick(len(l), "rule")].(map[string]interface{})
+		alts := []func(){
+			func() { r["labelSelector"] = "all" },
+			func() { r["labelSelector"] = Object{"matchLabels": Object{"a": int64(1)}} },
+			func() { r["labelSelector"] = Object{"matchExpressions": []interface{}{nil}} },
+			func() { r["labelSelector"] = Object{"matchExpressions": []interface{}{Object{"key": "a", "operator": "Near", "values": nil}}} },
+			func() { r["names"] = "r0" },
+			func() { r["names"] = []interface{}{nil, int64(1)} },
+			func() { r["namespace"] = int64(5) },
+			func() { r["apiVersion"] = nil },
+			func() { r["resource"] = []interface{}{} },
+			func() { delete(r, "apiVersion") },
+			func() { delete(r, "resource") },
+		}
+		alts[t.Pick(len(alts), "rulemut")]()
+		return canon(v), 200, "customize-hostile-rule", false
+	default:
+		v := deepCopy(valid)
+		var paths [][]interface{}
+		jsonPaths(v, nil, &paths)
+		if len(paths) <= 1 {
+			return canon(v), 200, "valid", false
+		}
+		p := paths[1+t.Pick(len(paths)-1, "path")]
+		if t.Pick(6, "delete") == 5 {
+			nv := setAt(v, p, nil, true)
+			return canon(nv.(map[string]interface{})), 200, "customize-field-deleted", false
+		}
+		val := hostileValues[t.Pick(len(hostileValues), "value")]
+		nv := setAt(v, p, val, false)
+		m, ok := nv.(map[string]interface{})
+		if !ok {
+			return canon(v), 200, "valid", false
+		}
+		return canon(m), 200, "customize-field-replaced", false
+	}
+}
+
 // C13Scenario: no hook response, however malformed, can crash metacontroller or cause writes.
 func C13Scenario() *Scenario {
 	return &Scenario{Prop: "C13", Init: func(w *World) {
@@ -204,6 +275,20 @@ func C13Scenario() *Scenario {
 			}
 		} else {
 			cs := NewCompositeSetup(w, GenOpts{MaxWorkers: 2, MaxParents: 2, AvoidKnown: true, Programs: true})
+			if t.Pick(3, "customize") == 2 {
+				// a customize hook whose answers are corrupted, too
+				cs.Cfg.Customize = true
+				EditObject(w, ResCompositeCtl, "", cs.Cfg.Name, "setup", func(o Object) { o["spec"] = cs.Cfg.Object()["spec"] })
+				cs.Progs["cc"].Customize = CustomizeFromSpec("parent")
+				populateRelated(w)
+				for _, p := range cs.Parents {
+					rules := drawRelatedRules(t, p.NS, -1)
+					EditObject(w, p.Res, p.NS, p.Name, "setup", func(o Object) { setPath(o, rules, "spec", "related") })
+				}
+				w.InlineUnsyncedHooks = true
+				cs.Sig["customize"] = "true"
+				w.Cfg["customize"] = "true"
+			}
 			sig, progs, childKey, parentKey = copySig(cs.Sig), cs.Progs, "children", "parent"
 			finalCheck = func(w *World, pokeStep int) *Violation { return c01Check(w, cs.Cfg, cs.Opts, cs.Parents, pokeStep, 0) }
 			pokeAll = func(w *World) {
@@ -239,6 +324,15 @@ func C13Scenario() *Scenario {
 			p := p
 			_ = name
 			p.Raw = func(w *World, h *HookRec) *HookAnswer {
+				if hostile && h.Req != nil && h.Kind == "customize" && h.Sync >= 0 && p.Customize != nil && w.T.Chance(rate/2, "hostile?") {
+					// (customize calls made from informer handlers are answered inline, on
+					// their own goroutine: those stay valid, the tape belongs to the kernel)
+					body, code, class, rejected := mutateCustomize(w.T, p.Customize(deepCopy(h.Req)))
+					muts[h] = mutRec{class, rejected}
+					lastClass = class
+					w.FaultsFired["hostile:"+class]++
+					return &HookAnswer{Code: code, Body: body}
+				}
 				if !hostile || h.Req == nil || (h.Kind != "sync" && h.Kind != "finalize") || !w.T.Chance(rate, "hostile?") {
 					return nil
 				}
